@@ -54,6 +54,10 @@ def run(ctx, FS):
         # ... and that number is what update() counted: checked conversion of each piece length, saturating at MAX_LEN (shared with C11)
         from . import c11
         c11.guards(ctx, F, "R-09.6")
+        # the stream / file helpers feed every delivered byte (else their hashes carry the code of a prefix): C12's read-loop protocol
+        if F.fn("generate_easy_std::hash_stream_common") is not None:
+            from . import c12
+            c12.loop_protocol(ctx, F, "R-09.7")
 
 
 def encoder(ctx, r, F, T):
